@@ -951,7 +951,23 @@ func compareEnumDefinitions(newEnum, oldEnum *EnumDefinition, context *Evolution
 	return nil
 }
 
+// unwrapSingleCase strips GeneralizedTypes that merely wrap one type (no dimensionality, a
+// single non-null case). Which spelling was used in the model decides whether such a wrapper
+// is present, e.g. `items: int?` versus `items: [null, int]` on a !stream.
+func unwrapSingleCase(t Type) Type {
+	for {
+		gt, ok := t.(*GeneralizedType)
+		if !ok || gt.Dimensionality != nil || !gt.Cases.IsSingle() {
+			return t
+		}
+		t = gt.Cases[0].Type
+	}
+}
+
 func compareTypes(newType, oldType Type, context *EvolutionContext) TypeChange {
+	newType = unwrapSingleCase(newType)
+	oldType = unwrapSingleCase(oldType)
+
 	switch newType := newType.(type) {
 	case *SimpleType:
 		switch oldType := oldType.(type) {
